@@ -339,6 +339,8 @@ pub struct W {
     free_choice: bool,
     req_labels: Vec<String>,
     stalls: u32,
+    /// consecutive default time steps during which the plugin neither answered an HTLC nor issued a payment-related request
+    idle_advances: u32,
     a_events: u32,
     history: Vec<String>,
     last_labels: Vec<String>,
@@ -654,7 +656,7 @@ impl W {
             let budget = self.advances < cfg.max_advances;
             // the default advance (only offered when nothing else is left to do, see the
             // cost assignment below) is part of the drain and not budgeted
-            if any_held && (budget || free.is_empty()) {
+            if any_held && (budget || free.is_empty()) && self.idle_advances < 3 {
                 free.push((Ev::Advance(d), format!("Advance({}ms)", d)));
             } else if !self.in_probe && budget {
                 alts.push((Ev::Advance(d), format!("Advance({}ms)", d)));
@@ -880,6 +882,16 @@ impl W {
                     self.hstate[t] = HState::Panicked;
                 }
             }
+        }
+        if matches!(ev, Ev::Advance(_)) && self.free_choice {
+            let progress = !self.last_step_responses.is_empty() || reqs.iter().any(|r| r.method != Method::Getinfo);
+            if progress {
+                self.idle_advances = 0;
+            } else {
+                self.idle_advances += 1;
+            }
+        } else if !matches!(ev, Ev::Answer(_)) || !reqs.is_empty() || !self.last_step_responses.is_empty() {
+            self.idle_advances = 0;
         }
         // C07: one resolution for the whole set
         for (h, rs) in by_hash {
@@ -1722,6 +1734,7 @@ impl Model for W {
             free_choice: false,
             req_labels: Vec::new(),
             stalls: 0,
+            idle_advances: 0,
             a_events: 0,
             history: Vec::new(),
             last_labels: Vec::new(),
@@ -1755,7 +1768,7 @@ impl Model for W {
         let mut h = self.view.clone();
         self.sim.with(|s| s.digest(&mut h));
         h.add(&self.hstate);
-        h.add(&(self.vtime_ms, self.advances, self.height_events, self.crashes, self.faults, self.inc_no, self.told_height));
+        h.add(&(self.vtime_ms, self.advances, self.height_events, self.crashes, self.faults, self.inc_no, self.told_height, self.idle_advances, self.stalls));
         h.add(&self.last_step_responses);
         h.add(&self.mon);
         h.value()
